@@ -401,7 +401,7 @@ class Gen:
             if s.startswith('//@fn ') or s.startswith('//@slice '):
                 j = i + 1
                 dl = []
-                while j < n and lines[j].strip().startswith('//@') and not re.match(r'//@(fn|slice|item|module|lemma|if|endif)\b', lines[j].strip()):
+                while j < n and lines[j].strip().startswith('//@') and not re.match(r'//@(fn|slice|item|const|module|lemma|if|endif)\b', lines[j].strip()):
                     dl.append(lines[j].strip())
                     j += 1
                 try:
@@ -416,6 +416,21 @@ class Gen:
             if s.startswith('//@item '):
                 try:
                     self.do_item(s[8:])
+                except LostAnchor as e:
+                    raise LostAnchor('%s:%d: %s' % (name, i + 1, e))
+                i += 1
+                continue
+            if s.startswith('//@const '):
+                try:
+                    cm, ch, cn = [x.strip() for x in s[9:].split('|')]
+                    cont = self.src.find_container(cm, ch)
+                    hits = [c for c in cont.children if c.kind == 'const' and c.name == cn]
+                    if len(hits) != 1:
+                        raise LostAnchor('%d consts named %s in %s' % (len(hits), cn, ch))
+                    st = self.lineno()
+                    self.emit(strip_attrs(strip_docs(hits[0].text)))
+                    self.meta['fns'].append({'id': 'const.%s.%s' % (ch, cn), 'anchor': s[9:], 'src_mod': cm, 'sha': hits[0].sha(), 'rules': [],
+                                             'lines': [st, self.lineno() - 1], 'module': '::'.join(self.cur_mod_stack), 'mode': 'item'})
                 except LostAnchor as e:
                     raise LostAnchor('%s:%d: %s' % (name, i + 1, e))
                 i += 1
@@ -471,7 +486,14 @@ def generate(expanded_path, templates, out_rs, out_meta, flags=()):
     src = Source(open(expanded_path).read())
     g = Gen(src, {'flags': list(flags)})
     for t in templates:
-        g.process(open(t).read(), os.path.basename(t))
+        if t.endswith('.py'):
+            import importlib.util
+            sp = importlib.util.spec_from_file_location('tmpl_' + os.path.basename(t)[:-3], t)
+            m = importlib.util.module_from_spec(sp)
+            sp.loader.exec_module(m)
+            g.process(m.template(src, list(flags)), os.path.basename(t))
+        else:
+            g.process(open(t).read(), os.path.basename(t))
     text = '\n'.join(g.out) + '\n'
     with open(out_rs, 'w') as f:
         f.write(text)
